@@ -83,9 +83,9 @@ Example demo_runs_gt :
 Proof. vm_compute. reflexivity. Qed.
 
 (* ---- the guards are necessary ---- *)
-Definition refuted (fl : flavour) (p : block IL) (st : state IL) : Prop :=
+Definition refuted (tr : bool) (fl : flavour) (p : block IL) (st : state IL) : Prop :=
   wf_prog IL p = true /\
-  exists fuel st', run_struct IL fuel Lax p st = Ok st' /\
+  exists fuel st', run_struct IL fuel (Lax tr) p st = Ok st' /\
     forall fuel' tm', run_flat IL fuel' (desugar IL fl p) st <> Ok (st', tm').
 
 (* (vm_compute on a goal would strongly normalise [IL] inside the type [state IL]; the results
@@ -93,8 +93,8 @@ Definition refuted (fl : flavour) (p : block IL) (st : state IL) : Prop :=
 Ltac refute K :=
   split; [vm_cast_no_check (eq_refl true)|];
   match goal with
-  | |- exists fuel st', run_struct IL fuel Lax ?p ?st = Ok st' /\ _ =>
-      let r := eval vm_compute in (run_struct IL K Lax p st) in
+  | |- exists fuel st', run_struct IL fuel (Lax ?tr) ?p ?st = Ok st' /\ _ =>
+      let r := eval vm_compute in (run_struct IL K (Lax tr) p st) in
       match r with
       | Ok ?s => exists K, s; split; [vm_cast_no_check (eq_refl r)|]
       end
@@ -120,14 +120,14 @@ Ltac refute K :=
 Definition cex_time : block IL :=
   blk [nop; tabs 10; ins 1 []; tabs 5;
        @SCond IL KIf (ILit 1) (blk [nop; trel 3; ins 2 []; nop]) CEnd; nop].
-Theorem cex_time_reset : refuted PredecNeZero cex_time (init 0 []).
+Theorem cex_time_reset : refuted true PredecNeZero cex_time (init 0 []).
 Proof. refute 50%nat. Qed.
 
 (* (2) times(n) with n < 0 and no named counter: `for _ in 0..n` runs zero times, `--c > 0` once *)
 Definition cex_negcount : block IL :=
   blk [nop; @STimes IL 1%nat None (IVar 0) (blk [nop; ins 1 []; nop]); nop].
-Theorem cex_neg_count : refuted PredecGtZero cex_negcount (init 0 [(0, -1)]).
-Proof. refute 50%nat. Qed.
+Theorem cex_neg_count : forall tr, refuted tr PredecGtZero cex_negcount (init 0 [(0, -1)]).
+Proof. intros [|]; refute 50%nat. Qed.
 
 (* (3) named counter driven below zero by the body: AstVm repeats until the counter is exactly 0,
        `--c > 0` stops *)
@@ -137,21 +137,21 @@ Definition cex_negcounter : block IL :=
          (blk [nop; ins 1 [IVar 0];
                asg 0 (IBin (IBin (IBin (IVar 0) OEq (ILit 3)) OMul (ILit (-2))) OAdd (ILit 1)); nop]);
        nop].
-Theorem cex_neg_counter : refuted PredecGtZero cex_negcounter (init 0 []).
-Proof. refute 80%nat. Qed.
+Theorem cex_neg_counter : forall tr, refuted tr PredecGtZero cex_negcounter (init 0 []).
+Proof. intros [|]; refute 80%nat. Qed.
 
-Theorem full_refuted :
+Theorem full_refuted : forall tr,
   ~ (forall (L : lang),
        ((forall e n r, const_int L e = Some n -> eval_int L e r = Ok (n, r)) /\
         (forall e r z r', eval_int L e r = Ok (z, r') -> in_i32 z) /\
         (forall v z r, in_i32 z -> rd L v (wr L v z r) = Ok z)) ->
        forall fl (p : block L) st fuel st',
          wf_prog L p = true ->
-         run_struct L fuel Lax p st = Ok st' ->
+         run_struct L fuel (Lax tr) p st = Ok st' ->
          exists fuel' tm', run_flat L fuel' (desugar L fl p) st = Ok (st', tm')).
 Proof.
-  intros F. destruct cex_time_reset as (WF & fuel & st' & R & N).
-  destruct (F IL (conj IL_const (conj IL_i32 IL_rw)) PredecNeZero cex_time (init 0 []) fuel st' WF R) as (fuel' & tm' & E).
+  intros tr F. destruct (cex_neg_count tr) as (WF & fuel & st' & R & N).
+  destruct (F IL (conj IL_const (conj IL_i32 IL_rw)) PredecGtZero cex_negcount (init 0 [(0, -1)]) fuel st' WF R) as (fuel' & tm' & E).
   exact (N fuel' tm' E).
 Qed.
 
